@@ -20,6 +20,12 @@ from checks.ledger import RandomTree, judge
 MODEL_CFG = dict(period=1000, timespan=4, initial_subsidy=8, halving=2, max_money=30)
 
 
+# annotations a user (or the node) may give a handed-out key: the empty one (`skepticoin-receive ""`), blanks, the miner's reservation,
+# text that needs JSON escaping, a long one, words that look like JSON literals
+ANNOTATIONS = ["", " ", "reserved for potentially mined block", "change", 'say "hi" \\ there', "line1\nline2", "null", "0", "false",
+               "x" * 300, "{}", "a0"]
+
+
 def proj(wallet, keys):
     al = lambda pub: keys.by_pub.get(pub, 0)
     kp = sorted(al(pub) for pub, priv in wallet.keypairs.items() if al(pub) and keys.sk[al(pub)].to_string() == priv)
@@ -108,7 +114,8 @@ def run(pid, tier, replay=None):
         nk = rng.choice([1, 2, 3, 4])
         ops = []
         for _ in range(rng.randint(3, 10)):
-            ops.append(rng.choice([("handout", "a%d" % rng.randint(0, 3)), ("handout", "receive"), ("restore",), ("save",), ("load",), ("save",), ("load",)]))
+            ops.append(rng.choice([("handout", "a%d" % rng.randint(0, 3)), ("handout", "receive"), ("restore",), ("save",), ("load",), ("save",), ("load",),
+                                   ("handout", rng.choice(ANNOTATIONS))]))
         tid += 1
         t = run_ops(ops, keys, nk, tid, d)
         if t["events"]:
